@@ -125,29 +125,51 @@ var entriesOf = [NumTypes][]int{
 const canaryLen = 8
 
 type buffer struct {
-	arena []byte
-	n     int
-	want  []byte // what the caller last put there: the library must never change it, not even later
+	arena  []byte
+	n      int
+	want   []byte // what the caller last put there: the library must never change it, not even later
+	canary []byte // the bytes before and after, as laid out
 }
 
-func newBuffer(content []byte) *buffer {
+// newBuffer lays content out between two canaries. What follows a record in its caller's
+// buffer is the caller's business — the rest of a network read, the previous record, zeros —
+// so the canary pattern varies (kind, from the tape): a parser whose result depends on bytes
+// beyond len disagrees with the string instantiation for some pattern.
+func newBuffer(content []byte, kind int, w uint64) *buffer {
 	a := make([]byte, canaryLen+len(content)+canaryLen)
 	for i := range a {
-		a[i] = 0xA5
+		switch kind {
+		case 1:
+			a[i] = 0x00
+		case 2:
+			a[i] = 0xFF
+		case 3:
+			a[i] = '7'
+		case 4:
+			a[i] = 'f'
+		case 5:
+			w = w*6364136223846793005 + 1442695040888963407
+			a[i] = byte(w >> 56)
+		case 6:
+			if len(content) > 0 {
+				a[i] = content[i%len(content)] // more of the same
+			} else {
+				a[i] = '1'
+			}
+		case 7:
+			a[i] = "/\xc3\xa9t\xc3\xa9 20"[i%9]
+		default:
+			a[i] = 0xA5
+		}
 	}
 	copy(a[canaryLen:], content)
-	return &buffer{arena: a, n: len(content), want: append([]byte(nil), content...)}
+	return &buffer{arena: a, n: len(content), want: append([]byte(nil), content...), canary: append(append([]byte(nil), a[:canaryLen]...), a[len(a)-canaryLen:]...)}
 }
 
 func (b *buffer) data() []byte { return b.arena[canaryLen : canaryLen+b.n : len(b.arena)] }
 
 func (b *buffer) canaryIntact() bool {
-	for i := 0; i < canaryLen; i++ {
-		if b.arena[i] != 0xA5 || b.arena[len(b.arena)-1-i] != 0xA5 {
-			return false
-		}
-	}
-	return true
+	return bytes.Equal(b.arena[:canaryLen], b.canary[:canaryLen]) && bytes.Equal(b.arena[len(b.arena)-canaryLen:], b.canary[canaryLen:])
 }
 
 type sentinel struct {
@@ -453,7 +475,11 @@ func (h *hist) readRecord(ty int, fault int, rec Record) []byte {
 }
 
 func (h *hist) lease(content []byte) *buffer {
-	b := newBuffer(content)
+	kind := 0
+	if !h.clean && h.t.Bool(1, 2) {
+		kind = 1 + h.t.Choose(7)
+	}
+	b := newBuffer(content, kind, h.t.Word())
 	if len(h.pool) < 24 {
 		h.pool = append(h.pool, b)
 	} else {
@@ -1220,4 +1246,19 @@ func (h *hist) opSetLimit() {
 	h.hash.Add(uint64(ty)<<32 | uint64(uint32(v)))
 	h.res.Faults.Inc("limit_changed")
 	h.logf("set %s.MaxInputLength = %d", typeNames[ty], v)
+	// the same content again under the new limit: whatever a parser remembers of an earlier
+	// rejection or acceptance (an error object, a verdict) was made under the old one
+	if t.Bool(1, 2) {
+		var cands []int
+		for i, sn := range h.seenP {
+			if parserEntries[sn.pe].ty == ty {
+				cands = append(cands, i)
+			}
+		}
+		if len(cands) > 0 && !h.stop {
+			sn := h.seenP[cands[t.Choose(len(cands))]]
+			h.res.Probes.Inc("reparse_after_limit_change")
+			h.parseContent(parserEntries[sn.pe], sn.rule, append([]byte(nil), sn.content...), FIntact)
+		}
+	}
 }
